@@ -255,7 +255,7 @@ class Net:
 
     def add(self, name, host, coinstate, nonce, disk=None, port=2412):
         n = Node(self, name, host, coinstate, nonce, disk, port)
-        self.nodes[host] = n
+        self.nodes[(host, port)] = n           # several nodes may share a host address (one machine / one NAT)
         return n
 
     def run(self, node, fn, *a):
@@ -318,10 +318,10 @@ class Net:
         node = s.node
         if kind == "connect":
             self.pending_connects.remove(s)
-            tgt = self.nodes.get(s.remote_addr[0])
+            tgt = self.nodes.get((s.remote_addr[0], s.remote_addr[1]))
             if s.closed:
                 return
-            if tgt is None or s.remote_addr[1] != tgt.lp.port or arg == "refuse":
+            if tgt is None or arg == "refuse":
                 s.refused = True
                 return
             tgt.eport += 1
